@@ -93,6 +93,9 @@ func (m *DistrStakingMigrate) Execute(ctx sdk.Context, cdc codec.BinaryCodec, fr
 		info.DelegatorAddress = sdk.AccAddress(to.Bytes()).String()
 		stakingStore.Delete(delegateIterator.Key())
 		stakingStore.Set(stakingtypes.GetDelegationKey(to.Bytes(), validatorAddr), stakingtypes.MustMarshalDelegation(cdc, info))
+		// the delegations-by-validator index
+		stakingStore.Delete(stakingtypes.GetDelegationsByValKey(validatorAddr, from))
+		stakingStore.Set(stakingtypes.GetDelegationsByValKey(validatorAddr, to.Bytes()), []byte{})
 
 		events = append(events,
 			sdk.NewEvent(
@@ -118,6 +121,10 @@ func (m *DistrStakingMigrate) Execute(ctx sdk.Context, cdc codec.BinaryCodec, fr
 
 		stakingStore.Delete(stakingtypes.GetUBDByValIndexKey(from, valAddr))
 		stakingStore.Set(stakingtypes.GetUBDByValIndexKey(to.Bytes(), valAddr), []byte{})
+		// the unbonding-id index points to the record key
+		for _, entry := range ubd.Entries {
+			stakingStore.Set(stakingtypes.GetUnbondingIndexKey(entry.UnbondingId), stakingtypes.GetUBDKey(to.Bytes(), valAddr))
+		}
 
 		// migrate unbonding queue
 		for _, entry := range ubd.Entries {
@@ -171,6 +178,10 @@ func (m *DistrStakingMigrate) Execute(ctx sdk.Context, cdc codec.BinaryCodec, fr
 
 		stakingStore.Delete(stakingtypes.GetREDByValDstIndexKey(from, valSrcAddr, valDstAddr))
 		stakingStore.Set(stakingtypes.GetREDByValDstIndexKey(to.Bytes(), valSrcAddr, valDstAddr), []byte{})
+		// the unbonding-id index points to the record key
+		for _, entry := range red.Entries {
+			stakingStore.Set(stakingtypes.GetUnbondingIndexKey(entry.UnbondingId), stakingtypes.GetREDKey(to.Bytes(), valSrcAddr, valDstAddr))
+		}
 
 		// migrate redelegate queue
 		for _, entry := range red.Entries {
